@@ -21,6 +21,7 @@ import (
 	"path/filepath"
 	"sort"
 	"strings"
+	"time"
 
 	"github.com/Masterminds/semver/v3"
 	"sigs.k8s.io/yaml"
@@ -285,6 +286,14 @@ var theScratch *scratch
 func getScratch() *scratch {
 	if theScratch != nil {
 		return theScratch
+	}
+	// housekeeping: scratch directories of workers that were killed long ago
+	if old, _ := filepath.Glob("/var/tmp/c18-*"); len(old) > 0 {
+		for _, d := range old {
+			if fi, err := os.Stat(d); err == nil && time.Since(fi.ModTime()) > 6*time.Hour {
+				os.RemoveAll(d)
+			}
+		}
 	}
 	dir, err := os.MkdirTemp("/var/tmp", "c18-")
 	if err != nil {
@@ -674,13 +683,10 @@ func minimise(cs caseSpec, kind string) caseSpec {
 			}
 		}
 	}
-	// Only a plain valid version may be replaced, and only by a simpler plain
-	// valid version: swapping entry shapes (null, nometa, bad ...) in or out
-	// could turn the case into a different defect with the same symptom.
+	// A token may only be replaced by a simpler plain valid version (towards the
+	// well-formed baseline): putting an odd entry shape (null, nometa, bad ...)
+	// in could turn the case into a different defect with the same symptom.
 	for i := range cur.List {
-		if !plainVersion(cur.List[i]) {
-			continue
-		}
 		for _, tok := range alphabets[cur.Alpha] {
 			if tok == cur.List[i] {
 				break
